@@ -137,16 +137,19 @@ func vSamePicture(a, b *image.NRGBA, alphaOnly bool) bool {
 
 // VerifH_C08_Step: ONE AddFrame step of the animation encoder from an arbitrary reachable state,
 // followed by the real mux -> demux -> AnimDecoder step from the matching decoder state.
-//   mode 0: lossless (C08: exact pictures); mode 1: lossy colour / exact alpha (C18: alpha channel exact).
+//   mode 0: lossless (C08: exact pictures); mode 1: lossy colour / exact alpha (C18: alpha channel exact);
+//   mode 2: AllowMixed with lossy as the configured codec, mode 3: AllowMixed with lossless configured
+//   (each frame is coded with both and the smaller stream wins: alpha exact, C18).
 // State invariant used (what any history establishes): encoder prevCanvas == picture the decoder
 // shows; prevFrameRect == decoder prevBounds (even-aligned, inside the canvas, non-empty);
 // prevFrameWasKeyframe => the canvas is transparent outside prevFrameRect.
 func VerifH_C08_Step(cw, ch, mode, fills int) {
-	lossless := mode == 0
+	lossless := mode == 0 || mode == 3
+	mixed := mode >= 2
 	FrameEncoderFunc, FrameDecoderFunc = vEncStub, vDecStub
 	vFills, vPadTo = 0, 0
 	out := &vBuf{}
-	opts := &EncodeOptions{Lossless: lossless, Quality: 75, AllowMixed: false, Kmin: verifapi.Int("kmin"), Kmax: verifapi.Int("kmax"), LoopCount: verifapi.Int("loop")}
+	opts := &EncodeOptions{Lossless: lossless, Quality: 75, AllowMixed: mixed, Kmin: verifapi.Int("kmin"), Kmax: verifapi.Int("kmax"), LoopCount: verifapi.Int("loop")}
 	e := NewEncoder(out, cw, ch, opts)
 	verifapi.Assert(e != nil, "encoder created")
 	prev := vSymCanvas(cw, ch, "prev")
@@ -227,7 +230,7 @@ func VerifH_C08_Step(cw, ch, mode, fills int) {
 	verifapi.Cover(anim.Frames[1].Blend == BlendAlpha, "blended sub-frame chosen")
 	snap, _, nerr := dec.NextFrame()
 	verifapi.Assert(nerr == nil, "NextFrame succeeds")
-	verifapi.Assert(vSamePicture(snap, curr, !lossless), "played-back canvas equals the picture that was added")
+	verifapi.Assert(vSamePicture(snap, curr, !lossless || mixed), "played-back canvas equals the picture that was added")
 	// encoder post-state re-establishes the invariant
 	verifapi.Assert(vSamePicture(e.prevCanvas, curr, false), "encoder remembers the picture it wrote")
 	verifapi.Assert(e.prevFrameRect == anim.Frames[1].Bounds(), "encoder's previous-frame rectangle is the rectangle written")
